@@ -121,9 +121,9 @@ func MergeInto(selector Selector, sourceBuilderName string, underPath string, ex
 
 func composeBuilderForType(schemas ast.Schemas, builders ast.Builders, config CompositionConfig, typeDiscriminator string, sourceBuilder ast.Builder, composableBuilders ast.Builders) (ast.Builders, error) {
 	newBuilder := ast.Builder{
-		Package:     composableBuilders[0].Package,
-		For:         sourceBuilder.For,
-		Name:        sourceBuilder.For.Name,
+		Package: composableBuilders[0].Package,
+		For:     sourceBuilder.For,
+		Name:    sourceBuilder.For.Name,
 		// every composed builder appends its own constants to the constructor:
 		// they can not share the slices of the source builder's.
 		Constructor: sourceBuilder.Constructor.DeepCopy(),
